@@ -343,7 +343,8 @@ def check_verify(ctx, case):
             kf = KF_DER_SHORT
         elif (case.get('pkform') == 'hex' and isinstance(exc, AttributeError) and 'is_private' in str(exc)):
             kf = KF_PK_HEX
-        ctx.disc('verify.rejects_valid', 'standard ECDSA accepts, library %s: %s' % (msg, what), case, kf=kf)
+        bucket = 'verify.rejects_valid' + {KF_DER_SHORT: '.short_der', KF_PK_HEX: '.pubkey_hexstring'}.get(kf, '')
+        ctx.disc(bucket, 'standard ECDSA accepts, library %s: %s' % (msg, what), case, kf=kf)
         return
     # accepted although standard ECDSA rejects
     kf = None
@@ -357,7 +358,8 @@ def check_verify(ctx, case):
             red = (x % ec.P, y % ec.P) if (x >= ec.P or y >= ec.P) and ec.on_curve((x % ec.P, y % ec.P)) else None
         if red is not None and ec.verify(z, r, s, red):
             kf = KF_PK_ALIAS
-    ctx.disc('verify.accepts_invalid', 'standard ECDSA rejects (%s), library accepted: %s' %
+    ctx.disc('verify.accepts_invalid' + ('.pubkey_coordinate_ge_p' if kf else ''),
+             'standard ECDSA rejects (%s), library accepted: %s' %
              ('public key is not a valid encoding of a curve point' if q is None else 'equation does not hold / range',
               what), case, kf=kf)
 
@@ -366,6 +368,8 @@ DISPATCH = {'sign': check_sign, 'verify': check_verify, 'noncepair': check_nonce
 
 
 def replay(ctx, case):
+    if 'probe' in case and 'kind' not in case:          # replay file written for a reproducing finding probe
+        case = dict((fid, c) for fid, c, _ in _probe_list())[case['probe']]
     DISPATCH[case['kind']](ctx, case)
 
 
@@ -579,25 +583,28 @@ def strategies(ctx):
 
 # ---- probes ------------------------------------------------------------------------------------------
 
+def _probe_list():
+    zb = bytes(range(32))
+    base = (0x1234567, zb, 12345, 7, 99, 0, 'pad_r', True)
+    return [
+        (KF_DER_SHORT, build_verify_case('half_nonce', *base[:2], 1, *base[3:], 'der', 'key_pub', 'bytes',
+                                         'verify_fn', 1),
+         'a valid strict-DER signature of at most 63 bytes (64 with the hash type byte; e.g. the short r of nonce '
+         '1/2, common on chain) is refused by Signature.parse_bytes / verify: "Signature length must be 64 bytes"'),
+        (KF_PK_HEX, build_verify_case('valid', *base, 'raw64', 'hex', 'bytes', 'verify_fn', 1),
+         'verify(txid, signature, public_key=<hex string>) raises AttributeError although hexstring is a '
+         'documented public_key type'),
+        (KF_PK_ALIAS, build_verify_case('pk_alias', *base[:7], False, 'raw64', 'bytes', 'bytes', 'verify_fn', 1),
+         'a public key encoding with x >= p (x + p of a real point) is accepted by the verifier; standard parsers '
+         'reject such encodings'),
+    ]
+
+
 def probes(ctx):
     saved = ctx.findings
     ctx.findings = {}
     try:
-        zb = bytes(range(32))
-        base = (0x1234567, zb, 12345, 7, 99, 0, 'pad_r', True)
-        plist = [
-            (KF_DER_SHORT, build_verify_case('half_nonce', *base[:2], 1, *base[3:], 'der', 'key_pub', 'bytes',
-                                             'verify_fn', 1),
-             'a valid strict-DER signature of at most 63 bytes (64 with the hash type byte; e.g. the short r of nonce '
-             '1/2, common on chain) is refused by Signature.parse_bytes / verify: "Signature length must be 64 bytes"'),
-            (KF_PK_HEX, build_verify_case('valid', *base, 'raw64', 'hex', 'bytes', 'verify_fn', 1),
-             'verify(txid, signature, public_key=<hex string>) raises AttributeError although hexstring is a '
-             'documented public_key type'),
-            (KF_PK_ALIAS, build_verify_case('pk_alias', *base[:7], False, 'raw64', 'bytes', 'bytes', 'verify_fn', 1),
-             'a public key encoding with x >= p (x + p of a real point) is accepted by the verifier; standard parsers '
-             'reject such encodings'),
-        ]
-        for fid, case, what in plist:
+        for fid, case, what in _probe_list():
             try:
                 replay(ctx, case)
                 ctx.probe(fid, False, what)
